@@ -22,7 +22,16 @@ type Loop struct {
 	ModComps  map[string]string // component name -> sort
 	ModAll    bool
 	Writers   map[string][]ssa.Value // component -> the base values stored through (nil entry = unknown base)
+	SpecWrites []specWrite           // writes described by the modifies clause of a called contract
 	Reasons   []string
+}
+
+type specWrite struct {
+	sp    *FuncSpec
+	fn    *ssa.Function
+	cc    *ssa.CallCommon
+	m     string
+	comps [][2]string
 }
 
 type LoopInfo struct {
@@ -309,7 +318,7 @@ func (c *Ctx) callEffects(ins ssa.CallInstruction, l *Loop, top bool, seen map[*
 		c.specEffects(sp, fn, cc, l)
 		return
 	}
-	if len(fn.Blocks) > 0 && depth < 8 && !seen[fn] {
+	if len(fn.Blocks) > 0 && depth < 8 && !seen[fn] && c.inlinable(fn) {
 		if li := c.loopInfo(fn); len(li.loops) == 0 {
 			seen[fn] = true
 			// effects of the inlined body, with write bases translated back to the caller's argument values
@@ -356,8 +365,9 @@ func (c *Ctx) specEffects(sp *FuncSpec, fn *ssa.Function, cc *ssa.CallCommon, l 
 			continue
 		}
 		for _, nc := range comps {
-			c.addComp(l, nc[0], nc[1], nil)
+			l.ModComps[nc[0]] = nc[1]
 		}
+		l.SpecWrites = append(l.SpecWrites, specWrite{sp, fn, cc, m, comps})
 	}
 }
 
@@ -522,6 +532,8 @@ func (s *State) atLoopHead(l *Loop) bool {
 		if ls.Decreases != nil {
 			fr.LoopVariant[l.Head] = s.name("variant", "Int", evalDec(ls.Decreases))
 		}
+		// the invariants (together with the havoc frame) must not be contradictory
+		c.Obls = append(c.Obls, &Obligation{Name: fmt.Sprintf("%s/vac-loop#L%d", c.Key, l.Ordinal), Kind: "vac", Func: c.Key, Desc: "loop invariants satisfiable", Pos: pos, Path: s.Path, Goal: "false", ExpectSat: true, PathID: s.PathID})
 	}
 	return false
 }
@@ -581,6 +593,23 @@ func (s *State) havocLoop(l *Loop) {
 			}
 		}
 		frames[n] = fi
+	}
+	// writes made by called contracts: evaluate their modifies clauses on the loop-entry state when the
+	// arguments are loop-invariant
+	for _, sw := range l.SpecWrites {
+		refs, ok := s.specWriteRefs(sw, l)
+		for _, nc := range sw.comps {
+			fi := frames[nc[0]]
+			if fi == nil {
+				fi = &frameInfo{precise: true}
+				frames[nc[0]] = fi
+			}
+			if !ok {
+				fi.precise = false
+				continue
+			}
+			fi.refs = append(fi.refs, refs[nc[0]]...)
+		}
 	}
 	for _, a := range allocs {
 		v, ok := fr.Vals[a]
@@ -832,4 +861,80 @@ func calleeBaseToArg(w ssa.Value, fn *ssa.Function, cc *ssa.CallCommon) ssa.Valu
 		return nil
 	}
 	return nil
+}
+
+// specWriteRefs evaluates a callee's modifies entry at the loop-entry state, with the callee's parameters bound to
+// the (loop-invariant) argument values. ok=false if an argument is not loop-invariant or the entry cannot be
+// evaluated.
+func (s *State) specWriteRefs(sw specWrite, l *Loop) (refs map[string][]Term, ok bool) {
+	c := s.C
+	defer func() {
+		if r := recover(); r != nil {
+			refs, ok = nil, false
+		}
+	}()
+	if sw.cc.IsInvoke() {
+		return nil, false
+	}
+	sig := sw.cc.Signature()
+	if sw.fn != nil {
+		sig = sw.fn.Signature
+	}
+	env := &SpecEnv{S: s, C: c, Heap: s.Heap, Cells: s.Cells, Vars: map[string]TV{}, Pkg: c.pkgOf(c.Fn), Ghost: s.Ghost}
+	if sw.fn != nil {
+		env.Pkg = c.pkgOf(sw.fn)
+	}
+	// only the parameters mentioned by the entry have to be invariant
+	mentioned := func(name string) bool {
+		return name != "" && (strings.HasPrefix(strings.TrimPrefix(sw.m, "*"), name+".") || strings.TrimSuffix(strings.TrimSuffix(strings.TrimPrefix(sw.m, "*"), "[*]"), ".*") == name || strings.HasPrefix(sw.m, name+"["))
+	}
+	bind := func(name string, arg ssa.Value, t types.Type) bool {
+		if !mentioned(name) {
+			return true
+		}
+		ref, ok := s.invariantRef(arg, l, "")
+		if !ok || ref == "" {
+			return false
+		}
+		switch c.sortOf(t) {
+		case "Int":
+			env.Vars[name] = TV{T: ref, Ty: t, Sort: "Int"}
+			return true
+		}
+		return false
+	}
+	i := 0
+	if sig.Recv() != nil {
+		names := []string{"this", sig.Recv().Name()}
+		if sw.fn != nil && len(sw.fn.Params) > 0 {
+			names = append(names, sw.fn.Params[0].Name())
+		}
+		for _, n := range names {
+			if !bind(n, sw.cc.Args[0], sig.Recv().Type()) {
+				return nil, false
+			}
+		}
+		i = 1
+	}
+	for j := 0; j < sig.Params().Len(); j++ {
+		n := sig.Params().At(j).Name()
+		if sw.fn != nil && i+j < len(sw.fn.Params) {
+			n = sw.fn.Params[i+j].Name()
+		}
+		if !bind(n, sw.cc.Args[i+j], sig.Params().At(j).Type()) {
+			return nil, false
+		}
+	}
+	ts, heap := s.modTargets(env, sw.m)
+	if heap {
+		return nil, false
+	}
+	refs = map[string][]Term{}
+	for _, t := range ts {
+		if t.Ref == "" {
+			return nil, false
+		}
+		refs[t.Comp] = append(refs[t.Comp], t.Ref)
+	}
+	return refs, true
 }
